@@ -17,7 +17,8 @@ import time
 VERIF = os.path.dirname(os.path.dirname(os.path.abspath(__file__)))
 REPO = os.environ.get("VERIF_REPO", "/repo")
 SPEC = os.path.join(VERIF, "spec")
-OUT = os.path.join(VERIF, "out")
+OUT = os.environ.get("VERIF_OUT") or os.path.join(VERIF, "out")
+EVIDENCE = os.environ.get("VERIF_EVIDENCE") or os.path.join(VERIF, "evidence")
 GO_ENV = {"GOFLAGS": "-mod=mod", "GOPROXY": "off"}
 NCPU = os.cpu_count() or 8
 
@@ -47,7 +48,16 @@ def build_vh(race=False, tags="verif"):
     name = "vh-race" if race else "vh"
     exe = os.path.join(OUT, "bin", name)
     src = os.path.join(VERIF, "harness")
-    # go.sum must match /repo's
+    if os.path.realpath(REPO) != "/repo":
+        # checking a scratch copy of the repository (mutation testing): build from a private copy of the harness
+        # whose go.mod points at it, so /repo and concurrent runs are not disturbed
+        priv = os.path.join(OUT, "harness_src")
+        shutil.rmtree(priv, ignore_errors=True)
+        shutil.copytree(src, priv)
+        gm = open(os.path.join(priv, "go.mod")).read().replace("=> /repo", "=> " + os.path.realpath(REPO))
+        open(os.path.join(priv, "go.mod"), "w").write(gm)
+        src = priv
+    # go.sum must match the repository's
     try:
         shutil.copyfile(os.path.join(REPO, "go.sum"), os.path.join(src, "go.sum"))
     except OSError:
@@ -447,9 +457,9 @@ class Check:
             "wall_s": round(wall, 1),
             "violations": len(seen),
         }
-        os.makedirs(os.path.join(VERIF, "evidence"), exist_ok=True)
+        os.makedirs(EVIDENCE, exist_ok=True)
         if self.tier in ("quick", "thorough"):
-            with open(os.path.join(VERIF, "evidence", self.prop + ".json"), "w") as f:
+            with open(os.path.join(EVIDENCE, self.prop + ".json"), "w") as f:
                 json.dump(ev, f, indent=1)
         if self.machinery_errors:
             for m in self.machinery_errors[:5]:
